@@ -597,6 +597,31 @@ fn check_partial_single_use(once: bool, ordered: bool, routing: &[u8]) -> Result
     Ok(summary.join(","))
 }
 
+/// A used-up single-use value keeps refusing even when a later pattern of the same method would
+/// accept the call: the second request is not silently answered by someone else's value.
+fn check_shadowed_single_use(routing: &[u8]) -> Result<String, String> {
+    let c = Arc::new(Counters::default());
+    let original = Quiet::new(Unimock::new((
+        TMock::ctok.some_call(matching!()).returns(CTok::new(1, &c)),
+        TMock::ctok.each_call(matching!()).returns(CTok::new(2, &c)),
+    )));
+    let clone = Quiet::new(original.clone());
+    let mut summary = vec![];
+    for (k, via) in routing.iter().enumerate() {
+        let inst: &Unimock = if *via == 0 { &original } else { &clone };
+        let r = catch(|| <Unimock as T12>::ctok(inst).id);
+        match (k, &r) {
+            (0, Ok(1)) => summary.push("delivered"),
+            (0, other) => return Err(format!("request 1: expected the single-use value (id 1), observed {other:?}")),
+            (_, Err(msg)) if matches!(classify(msg), PanicClass::MoreThanOnce) => summary.push("refused"),
+            (_, other) => return Err(format!("request {}: the single-use value of the first pattern was already handed out, the request must be refused (the first pattern still answers it), observed {other:?}", k + 1)),
+        }
+    }
+    drop(clone);
+    teardown(original, false);
+    Ok(summary.join(","))
+}
+
 /// A panic that escapes a case (construction refused, teardown of an inconsistent mock, ...) is a
 /// finding about that case, not a reason to stop exploring.
 fn guarded(f: impl FnOnce() -> Result<String, String>) -> Result<String, String> {
@@ -660,6 +685,22 @@ fn main() {
                     ),
                 }
             }
+        }
+    }
+    for routing in &routings {
+        ctx.tick();
+        stats.add("traces_validated_against_impl", 1);
+        stats.add("transitions", routing.len() as u64 + 2);
+        stats.add("shadowed_single_use_cases", 1);
+        match guarded(|| check_shadowed_single_use(routing)) {
+            Ok(summary) => {
+                outcomes.insert(format!("shadowed:{summary}"));
+            }
+            Err(what) => ctx.violation(
+                "single-use:shadowing-later-pattern",
+                &format!("single-use value followed by an overlapping repeatable pattern, requests routed {routing:?}: {what}"),
+                J::obj().set("kind", "shadowed").set("routing", format!("{routing:?}")),
+            ),
         }
     }
     for shape in CSHAPES {
